@@ -177,6 +177,7 @@ func C03(r *core.Run) {
 	timestampInRange(r)
 	documentEnds(r)
 	nullArmNotCounted(r)
+	presenceIsNotContent(r)
 	containersOpenStrictly(r)
 	queryOrderFree(r, sc) // a request's parameters are applied in an order that does not vary from call to call
 	r.Tick("rest")
